@@ -3,6 +3,8 @@
 Fixed schema (4 classes; 1:1, 1:M, reflexive with phrases, association class):
 
     A(ID, n, s, b, tag)   B(ID, A1_ID*, A2_ID*, n, s)   X(ID, Next_ID*, n, b)   L(ID, A_ID*, X_ID*, n)     (* referential)
+    M(ID, Boss_ID*, Sub_ID*, n)    R5  X 'manages' <-- M --> 'is managed by' X   (a REFLEXIVE association class: the phrase
+                                   alone selects the half; used by the family st_reflexive_using only)
     R1  B 1C ---- 1C A          R2  B MC ---- 1C A          R3  X 1C 'next' ---- 1C X 'prev'
     R4  A 1 ---- MC L MC ---- 1 X      (L is the association class: two ROPs numbered R4)
 
@@ -28,6 +30,9 @@ CLASSES = [
            ('b', 'boolean', False)]),
     ('L', [('ID', 'unique_id', False), ('A_ID', 'unique_id', True), ('X_ID', 'unique_id', True),
            ('n', 'integer', False)]),
+    # the association class of the REFLEXIVE associative relationship R5: X 'manages' <-- M --> 'is managed by' X
+    ('M', [('ID', 'unique_id', False), ('Boss_ID', 'unique_id', True), ('Sub_ID', 'unique_id', True),
+           ('n', 'integer', False)]),
 ]
 CLASS_ATTRS = dict(CLASSES)
 SQL_TYPE = {'unique_id': 'UNIQUE_ID', 'integer': 'INTEGER', 'string': 'STRING', 'boolean': 'BOOLEAN'}
@@ -39,8 +44,12 @@ ASSOCS = [
     ('R3', 'X', '1C', 'Next_ID', 'next', 'X', '1C', 'ID', 'prev'),
     ('R4', 'L', 'MC', 'A_ID', '', 'A', '1', 'ID', ''),
     ('R4', 'L', 'MC', 'X_ID', '', 'X', '1', 'ID', ''),
+    # as bridgepoint.ooaofooa.mk_linked_association defines a linked association whose two ends are the same class: the
+    # phrase alone selects the half (boss end: M.Boss_ID, subordinate end: M.Sub_ID)
+    ('R5', 'M', 'MC', 'Boss_ID', 'is managed by', 'X', '1', 'ID', 'manages'),
+    ('R5', 'M', 'MC', 'Sub_ID', 'manages', 'X', '1', 'ID', 'is managed by'),
 ]
-ID_BASE = {'A': 1000, 'B': 2000, 'X': 3000, 'L': 4000}
+ID_BASE = {'A': 1000, 'B': 2000, 'X': 3000, 'L': 4000, 'M': 5000}
 
 # navigation edges: (from class, to class, rel, phrase, to-many?)
 EDGES = [
@@ -413,6 +422,7 @@ class ProgGen(object):
         self.self_rels = schema.get('rels', [])   # [(rel, source class, target class)]: simple associations usable with the NAME self
         self.self_deleted = False
         self.snapshot_done = False
+        self.reflexive_using_done = False
         self.budget = max_stmts
         self.max_depth = max_depth
         self.params = list(params)            # [(name, ty)]
@@ -923,6 +933,9 @@ class ProgGen(object):
             choices += [('if', 14), ('while', 7), ('foreach', 9), ('arith_guard', 3)]
         if self.loop_depth == 0 and self.allow_mutation and self.create_in_loops and not self.snapshot_done:
             choices += [('snapshot', 5)]
+        if self.loop_depth == 0 and self.allow_mutation and self.create_in_loops and self.classes is CLASS_ATTRS \
+                and not self.reflexive_using_done:
+            choices += [('reflexive_using', 4)]
         if self.loop_depth > 0:
             choices += [('loopctl', 6)]
         if depth > 0:
@@ -1666,6 +1679,59 @@ class ProgGen(object):
         self.declare(S, V('set', cls, dead=(mode != 'create')))
         self.declare(S2, V('set', cls))
         for n in (c0, cin, c1, c2, k):
+            self.declare(n, V('integer'))
+        return out
+
+    def st_reflexive_using(self, depth):
+        """relate / unrelate ... using across the REFLEXIVE association class R5 (X 'manages' <-- M --> 'is managed by' X),
+        in either reading direction, then navigation from both ends and from the link instances"""
+        r = self.rng
+        self.reflexive_using_done = True
+        x1, x2, x3, m1, m2 = [self.fresh(n) for n in ('x', 'x', 'x', 'm', 'm')]
+        out = [['create', x1, 'X'], ['create', x2, 'X'], ['create', x3, 'X'], ['create', m1, 'M'], ['create', m2, 'M'],
+               ['setattr', ['var', x1], 'n', ['int', 11]], ['setattr', ['var', x2], 'n', ['int', 12]],
+               ['setattr', ['var', x3], 'n', ['int', 13]]]
+
+        def using(kind, boss, sub, m):
+            # `relate boss to sub across R5.'manages' using m`  ==  `relate sub to boss across R5.'is managed by' using m`
+            if r.random() < 0.5:
+                return [kind, boss, sub, 'R5', 'manages', m]
+            return [kind, sub, boss, 'R5', 'is managed by', m]
+        out += [using('relate_using', x1, x2, m1), using('relate_using', x1, x3, m2)]
+        ints = []
+
+        def count(handle, cls, phrase):
+            sv, cv = self.fresh(cls.lower() + 's'), self.fresh('i')
+            out.append(['select_rel', 'many', sv, ['var', handle], [[cls, 'R5', phrase]], None])
+            out.append(['assign', cv, ['un', 'cardinality', ['var', sv]]])
+            self.declare(sv, V('set', cls))
+            ints.append(cv)
+
+        def partner(m, phrase):
+            pv, cv = self.fresh('x'), self.fresh('i')
+            out.append(['select_rel', 'one', pv, ['var', m], [['X', 'R5', phrase]], None])
+            out.append(['assign', cv, ['int', 0]])
+            out.append(['if', ['un', 'not_empty', ['var', pv]], [['assign', cv, ['attr', ['var', pv], 'n']]], [], None])
+            self.declare(pv, V('inst', 'X', ne=False))
+            ints.append(cv)
+        count(x1, 'M', 'manages')
+        count(x1, 'M', 'is managed by')
+        count(x2, 'M', 'is managed by')
+        partner(m1, 'is managed by')
+        partner(m1, 'manages')
+        partner(m2, 'manages')
+        if r.random() < 0.7:
+            out.append(using('unrelate_using', x1, x3, m2))
+            count(x1, 'M', 'manages')
+            partner(m2, 'manages')
+            partner(m2, 'is managed by')
+            if r.random() < 0.5:
+                out.append(using('relate_using', x2, x3, m2))
+                count(x2, 'M', 'manages')
+                partner(m2, 'is managed by')
+        for n, c in ((x1, 'X'), (x2, 'X'), (x3, 'X'), (m1, 'M'), (m2, 'M')):
+            self.declare(n, V('inst', c, ne=True))
+        for n in ints:
             self.declare(n, V('integer'))
         return out
 
